@@ -2582,6 +2582,7 @@ setattr_delegate(
     PyObject *temp;
     has_traits_object *delegate;
     has_traits_object *temp_delegate;
+    has_traits_object *owner;
     int i, result;
 
     /* Follow the delegation chain until we find a non-delegated trait: */
@@ -2589,6 +2590,8 @@ setattr_delegate(
     Py_INCREF(daname);
     delegate = obj;
     for (i = 0;;) {
+        /* The object that 'traitd' belongs to: */
+        owner = delegate;
         dict = delegate->obj_dict;
         if ((dict != NULL)
             && ((temp_delegate = (has_traits_object *)PyDict_GetItem(
@@ -2614,7 +2617,7 @@ setattr_delegate(
             return bad_delegate_error2(obj, name);
         }
 
-        daname2 = traitd->delegate_attr_name(traitd, obj, daname);
+        daname2 = traitd->delegate_attr_name(traitd, owner, daname);
         Py_DECREF(daname);
         daname = daname2;
         if (((delegate->itrait_dict == NULL)
